@@ -48,6 +48,7 @@ def run(fb, rep, tier):
     c4_exceptions(fb, rep)
     c5_pawn_offsets(fb, rep)
     c6_scanner_lookahead(fb, rep)
+    c7_eof_width(fb, rep)
 
 
 PIECES = ['WKING', 'WQUEEN', 'WROOK', 'WBISHOP', 'WKNIGHT', 'WPAWN', 'BKING', 'BQUEEN', 'BROOK', 'BBISHOP', 'BKNIGHT', 'BPAWN']
@@ -561,3 +562,48 @@ def c6_scanner_lookahead(fb, rep):
         shared = {w.replace('[]', '') for w in wr} & {p_[5:] for p_ in rd}
         rep.ob(clause, 'K10 sibling agreement', 'returnTokenChar stores into state that getTokenChar reads first', bool(shared), h.where,
                'written %s, read %s' % (sorted(wr), sorted(rd)), h.sname)
+
+
+# --------------------------------------------------------------------------- .7 end-of-file test
+
+def c7_eof_width(fb, rep):
+    """K7 type obligation: the value of istream::get() is compared with EOF at its full width.  Narrowed to
+    `char` first, the data byte 0xFF (a letter in Latin-1, the PGN character set) equals EOF on platforms with a
+    signed char, and the scanner silently stops in the middle of a game."""
+    clause = 'C17.7'
+    n = 0
+    for f in sorted(fb.funcs.values(), key=lambda x: x.key):
+        if not f.has_cfg or not R.in_prog(f):
+            continue
+        for b, i, e in f.events():
+            tgt = None
+            src = None
+            if e.get('k') == 'decl':
+                for v in e.get('vars', []):
+                    if any(n_.get('k') == 'call' and cname(n_) == 'std::basic_istream::get' and not n_.get('args') for n_ in walk(v.get('init') or {})):
+                        tgt, src = v, v.get('init')
+            elif e.get('k') == 'asg' and isinstance(e.get('l'), dict) and e['l'].get('k') == 'var' and \
+                    any(n_.get('k') == 'call' and cname(n_) == 'std::basic_istream::get' and not n_.get('args') for n_ in walk(e.get('r') or {})):
+                tgt, src = e['l'], e.get('r')
+            if tgt is None:
+                continue
+            vid = tgt.get('id')
+            # is this variable ever compared with EOF (-1)?
+            cmps = []
+            for bid, blk in f.blocks.items():
+                for tree in [ev for ev in blk['ev']] + ([blk['term']['cond']] if (blk.get('term') or {}).get('cond') is not None else []):
+                    for n_ in walk(tree):
+                        if n_.get('k') == 'bin' and n_.get('op') in ('==', '!='):
+                            sides = [_strip(n_.get('l')), _strip(n_.get('r'))]
+                            if any(isinstance(x, dict) and x.get('k') == 'var' and x.get('id') == vid for x in sides) and any(isinstance(x, dict) and x.get('cv') == -1 for x in sides):
+                                cmps.append(n_)
+            if not cmps:
+                continue
+            n += 1
+            ty = (tgt.get('ct') or tgt.get('t') or '').replace('const ', '')
+            # the declared type of an assigned variable
+            if e.get('k') == 'asg':
+                ty = next(((v.get('ct') or v.get('t') or '') for _, _, ev in f.events() if ev.get('k') == 'decl' for v in ev.get('vars', []) if v['id'] == vid), ty).replace('const ', '')
+            rep.ob(clause, 'K7 type', '%s: the value of istream::get() is held in an int (not narrowed to char) where it is compared with EOF' % f.sname,
+                   ty in ('int', 'long', 'std::basic_istream<char>::int_type', 'int_type', 'std::char_traits<char>::int_type'), R.site(f, e), 'variable type: %s' % ty, f.sname)
+    rep.floor(clause, 'end-of-file tests on istream::get()', n, 1)
